@@ -752,8 +752,9 @@ type ListOffsetsRequestTopicV4 struct {
 }
 
 type ListOffsetsRequestV4 struct {
-	ReplicaId int32                       `json:"replicaId"`
-	Topics    []ListOffsetsRequestTopicV4 `json:"topics"`
+	ReplicaId      int32                       `json:"replicaId"`
+	IsolationLevel int8                        `json:"isolationLevel"`
+	Topics         []ListOffsetsRequestTopicV4 `json:"topics"`
 }
 
 // ListOffsets Response (Version: 0)
@@ -814,7 +815,8 @@ type ListOffsetsResponseTopicV4 struct {
 }
 
 type ListOffsetsResponseV4 struct {
-	Topics []ListOffsetsResponseTopicV4 `json:"topics"`
+	ThrottleTimeMs int32                        `json:"throttleTimeMs"`
+	Topics         []ListOffsetsResponseTopicV4 `json:"topics"`
 }
 
 // CreateTopics Request (Version: 0)
